@@ -15,6 +15,72 @@ VARIANTS = [  # (name, mode or None, status, chkinfeas, fail)
 ]
 
 
+def tolerance_stage(exe, tier, sd):
+    """The tolerance clause (SolTol.tla): TLC-generated cases (item kind x reference magnitude x tolerances x
+    discrepancy just below / at / above each threshold x check mode x fail) on a small linear model whose
+    point is exact except for one item that is off by a power of two."""
+    g = tlc("GenTol", "GenTol.cfg", cwd=sd, workers=NPROC)
+    tlc_must_pass(g, "GenTol")
+    gen = printed_json(g, "CASE")
+    if len(gen) < 30000:
+        raise Broken("GenTol produced %d cases" % len(gen))
+    gen.sort(key=lambda c: json.dumps(c, sort_keys=True))
+    rnd = random.Random(seed() + 11)
+    if tier != "thorough":
+        # every (what, mode, fail, threshold relation) class at least once, then a seeded sample
+        def cls(c):
+            return (c["what"], c["mode"], c["fail"], c["d"] - c["a"] if c["what"] != "int" else c["d"] - c["i"], c["bz"], c["rz"],
+                    None if c["rz"] or c["bz"] else max(-2, min(2, c["d"] + c["k"] - c["r"])))
+        order = list(range(len(gen))); rnd.shuffle(order)
+        seen, keep = set(), []
+        for i in order:
+            k = cls(gen[i])
+            if k not in seen:
+                seen.add(k); keep.append(i)
+        keep += [i for i in order if i not in set(keep)][:max(0, 2500 - len(keep))]
+        gen = [gen[i] for i in sorted(keep)]
+    runs = []
+    for c in gen:
+        b = 0.0 if c["bz"] else float(2 ** c["k"]) * (-1 if c["neg"] else 1)
+        dl = 2.0 ** -c["d"]
+        w = c["what"]
+        # x0 in [L, U] continuous, x2 in [-100, 100] continuous, x1 in [0, 8] integer (NL order: x0, x2, x1)
+        L, U, clb, cub = -50.0, 50.0, -1000.0, 1000.0
+        x0, x2, x1 = 0.0, 0.0, 3.0
+        obj_off = 0.0
+        if w == "ub": U = b; x0 = b + dl
+        elif w == "lb": L = b; x0 = b - dl
+        elif w == "con_ub": cub = b; x2 = b + dl
+        elif w == "con_lb": clb = b; x2 = b - dl
+        elif w == "int": x1 = 3.0 + dl
+        elif w == "obj": x0 = b; obj_off = dl if not c["neg"] else -dl
+        model = {"vars": [{"lb": L, "ub": U}, {"lb": -100.0, "ub": 100.0}, {"lb": 0, "ub": 8, "int": True}],
+                 "cons": [{"lb": clb, "ub": cub, "lin": [[0, 1], [1, 1]]}, {"lb": -1000.0, "ub": None, "lin": [[1, 1], [2, 1]]}],
+                 "objs": [{"max": False, "lin": [[0, 1]]}]}
+        opts = ["sol:chk:mode=%d" % c["mode"], "sol:chk:feastol=%r" % (2.0 ** -c["a"]),
+                "sol:chk:feastolrel=%r" % (0.0 if c["rz"] else 2.0 ** -c["r"]), "sol:chk:inttol=%r" % (2.0 ** -c["i"]),
+                "cvt:pre:all=0"]
+        if c["fail"]: opts.append("sol:chk:fail")
+        ans = "status 0 scripted\nprimal %r %r %r\nobjvals %r\n" % (x0, x2, x1, x0 + obj_off)
+        runs.append({"id": len(runs), "model": model, "opts": opts, "answer": ans, "c": c})
+    out = drv.run_cases(exe, PID + "t", runs)
+    recs = []
+    for r_, o in zip(runs, out):
+        s = o["sol"]
+        if o["hang"] or o["rc"] < 0:
+            recs.append({"e": "Crash", "id": r_["id"]}); continue
+        warn = bool(s and "Tolerance violations" in s["msg"])
+        code = s["code"] if s and s["code"] is not None else -1
+        if s and r_["c"]["fail"] and code == 150:
+            warn = False
+        recs.append({"e": "Tol", "id": r_["id"], "c": r_["c"], "o": {"solPresent": bool(s), "warn": warn, "code": code}})
+    res = validate_parallel("TraceSolTol", "TraceSolTol.cfg", recs, sd, "c07t", chunks=4)
+    verdicts = [v for r in res for v in printed_json(r, "VERDICT")]
+    if len(verdicts) != len(recs):
+        raise Broken("tolerance stage: verdict count %d != %d" % (len(verdicts), len(recs)))
+    return g, res, runs, out, verdicts
+
+
 def run(tier):
     t0 = time.time()
     sd = os.path.join(SPECS, "flat")
@@ -88,18 +154,48 @@ def run(tier):
         v.violation(key, "model %s/%s shape=%s domains=%s use=%s k=%s config=%s, point %s (violated=%s), variant %s: %s; message: %s" %
                     (g.get("kind"), g.get("op"), g.get("sh"), g.get("pat"), g.get("use"), g.get("k"), byid[m["cid"]]["cfgname"] if r_ else "", m.get("p"), m.get("viol_pred"), m.get("variant"), vd["v"], (sol["msg"][:300] if sol else None)),
                     {"gen": g, "meta": m, "opts": r_["opts"] if r_ else None, "answer": r_["answer"] if r_ else None})
+    # the tolerance clause
+    gt, rest, truns, tout, tverd = tolerance_stage(exe, tier, sd)
+    ttally = {}
+    for vd in tverd:
+        ttally[vd["v"]] = ttally.get(vd["v"], 0) + 1
+        if vd["v"] == "ok":
+            continue
+        r_ = truns[vd["id"]] if vd["id"] >= 0 else None
+        c = r_["c"] if r_ else {}
+        rel = "abs%+d" % (c["a"] - c["d"]) if c and c["what"] != "int" else ("int%+d" % (c["i"] - c["d"]) if c else "")
+        if c and c["what"] != "int":
+            rel += ":b0" if c["bz"] else ":r0" if c["rz"] else ":rel%+d" % (c["r"] - c["d"] - c["k"])
+        key = "tol:%s:%s:%s:mode%s:%s" % (vd["v"], c.get("what"), rel, c.get("mode"), "fail" if c.get("fail") else "warn")
+        sol = tout[vd["id"]]["sol"] if r_ else None
+        v.violation(key, "tolerance clause: %s off by 2^-%s against reference %s with feastol 2^-%s, feastolrel %s, inttol 2^-%s, sol:chk:mode=%s%s: %s; message: %s" %
+                    (c.get("what"), c.get("d"), "0" if c.get("bz") else "%s2^%s" % ("-" if c.get("neg") else "", c.get("k")), c.get("a"),
+                     "0" if c.get("rz") else "2^-%s" % c.get("r"), c.get("i"), c.get("mode"), " sol:chk:fail" if c.get("fail") else "",
+                     vd["v"], (sol["msg"][:300] if sol else None)),
+                    {"case": c, "opts": r_["opts"] if r_ else None, "answer": r_["answer"] if r_ else None})
     rcode, nnew = v.finish()
-    allres = res1 + res2
+    # non-vacuity of the tolerance clause: every item kind was both reported and accepted
+    tout_by = {}
+    for r_, o in zip(truns, tout):
+        s_ = o["sol"]
+        rep = bool(s_ and ("Tolerance violations" in s_["msg"] or s_["code"] == 150))
+        k_ = "%s:%s" % (r_["c"]["what"], "reported" if rep else "accepted")
+        tout_by[k_] = tout_by.get(k_, 0) + 1
+    if rcode == 0:
+        for w in ("ub", "lb", "con_ub", "con_lb", "int", "obj"):
+            if not tout_by.get(w + ":reported") or not tout_by.get(w + ":accepted"):
+                raise Broken("tolerance clause vacuous for '%s': %s" % (w, tout_by))
+    allres = res1 + res2 + rest
     write_evidence(PID, tier, {
         "states": gres.distinct + sum(r.distinct for r in allres), "transitions": gres.generated + sum(r.generated for r in allres),
         "traces_validated_against_impl": len(checks),
         "samples": [runs[i]["meta"] for i in (0, len(runs) // 2, len(runs) - 1)] if runs else ["none"],
-        "evaluations": len(checks), "verdicts": tally, "models": len(canon), "conversion_stats": stats,
+        "evaluations": len(checks) + len(truns), "verdicts": tally, "tolerance_cases": len(truns), "tolerance_verdicts": ttally, "tolerance_outcomes": tout_by, "models": len(canon), "conversion_stats": stats,
         "points_violated": sum(1 for r in runs if r["meta"]["viol_pred"]), "points_satisfied": sum(1 for r in runs if not r["meta"]["viol_pred"]),
-        "explanation": "models from GenNL converted natively; TLC computes candidate points (grid + just outside each bound) with the canonical (true) values of all auxiliary expressions; each is fed back as the scripted solver answer under check variants (default, fail, infeasible status with/without sol:chk:infeas, mode 0 / all); TLC validates the reported warning / code against SolCheck.tla",
+        "explanation": "models from GenNL converted natively; TLC computes candidate points (grid + just outside each bound) with the canonical (true) values of all auxiliary expressions; each is fed back as the scripted solver answer under check variants (default, fail, infeasible status with/without sol:chk:infeas, mode 0 / all); TLC validates the reported warning / code against SolCheck.tla; tolerance clause (SolTol.tla): TLC-generated cases on a linear model whose point is exact except for one item (variable bound, row bound, integrality, objective value) off by a power of two just below / at / above the absolute, relative and integrality thresholds, under 9 check modes and sol:chk:fail",
         "violations_new": nnew,
     }, time.time() - t0, violations=nnew,
-        assumptions=["integer-valued candidate points (violations are >= 1, far from the 1e-6 tolerance)", "canonical auxiliary values require native acceptance of functional constraints"])
+        assumptions=["stage 1/2: integer-valued candidate points (violations are >= 1, far from the 1e-6 tolerance); tolerance stage: all magnitudes are powers of two, so the doubles are exact and the documented rule (v > feastol and (b = 0 or v/|b| > feastolrel); |x - round x| > inttol) is decided on exponents", "canonical auxiliary values require native acceptance of functional constraints"])
     return rcode
 
 if __name__ == "__main__":
